@@ -49,8 +49,12 @@ theorem readInt_safe (k : Nat) (d : Dec) : Safe (readInt k d) :=
 theorem readUvarint_safe (d : Dec) : Safe (readUvarint d) := by
   unfold readUvarint; split <;> simp [Safe]
 
-theorem readLen_safe (cfg : Cfg) (hb : cfg.bounded = true) (n : Int) (d : Dec) : Safe (readLen cfg n d) := by
-  unfold readLen; simp only [hb, if_true]
+/-- the two facts the safety theorems need of the decoder: lengths and counts are checked against `remain` before anything is
+allocated (G1–G5), and what is allocated follows the data that ARRIVES (G8, G9) — `remain` is only what the size prefix announces -/
+def Guarded (cfg : Cfg) : Prop := cfg.bounded = true ∧ cfg.growing = true
+
+theorem readLen_safe (cfg : Cfg) (hb : Guarded cfg) (n : Int) (d : Dec) : Safe (readLen cfg n d) := by
+  unfold readLen; simp only [hb.1, hb.2, if_true, Bool.not_true, Bool.false_and, Bool.false_eq_true, if_false]
   split
   · simp [Safe]
   · split
@@ -58,9 +62,9 @@ theorem readLen_safe (cfg : Cfg) (hb : cfg.bounded = true) (n : Int) (d : Dec) :
     · split <;> simp [Safe]
 
 /-- an allocation that is granted never exceeds what is left of the frame -/
-theorem readLen_le_remain (cfg : Cfg) (hb : cfg.bounded = true) (n : Int) (d d' : Dec) (bs : Bytes)
+theorem readLen_le_remain (cfg : Cfg) (hb : Guarded cfg) (n : Int) (d d' : Dec) (bs : Bytes)
     (h : readLen cfg n d = .ok bs d') : 0 ≤ n ∧ n.toNat ≤ d.remain ∧ bs.length = n.toNat := by
-  unfold readLen at h; simp only [hb, if_true] at h
+  unfold readLen at h; simp only [hb.1, hb.2, if_true, Bool.not_true, Bool.false_and, Bool.false_eq_true, if_false] at h
   split at h
   · simp at h
   · split at h
@@ -73,23 +77,23 @@ theorem readLen_le_remain (cfg : Cfg) (hb : cfg.bounded = true) (n : Int) (d d' 
         simp [List.length_take]; omega
       · simp at h
 
-theorem allocElems_safe (cfg : Cfg) (hb : cfg.bounded = true) (n : Int) (d : Dec) : Safe (allocElems cfg n d) := by
-  unfold allocElems; simp only [hb, if_true]
+theorem allocElems_safe (cfg : Cfg) (hb : Guarded cfg) (n : Int) (d : Dec) : Safe (allocElems cfg n d) := by
+  unfold allocElems; simp only [hb.1, hb.2, if_true, Bool.not_true, Bool.false_and, Bool.false_eq_true, if_false]
   split
   · simp [Safe]
   · split <;> simp [Safe]
 
-theorem allocElems_le_remain (cfg : Cfg) (hb : cfg.bounded = true) (n : Int) (d d' : Dec) (k : Nat)
+theorem allocElems_le_remain (cfg : Cfg) (hb : Guarded cfg) (n : Int) (d d' : Dec) (k : Nat)
     (h : allocElems cfg n d = .ok k d') : k ≤ d.remain := by
-  unfold allocElems at h; simp only [hb, if_true] at h
+  unfold allocElems at h; simp only [hb.1, hb.2, if_true, Bool.not_true, Bool.false_and, Bool.false_eq_true, if_false] at h
   split at h
   · simp at h
   · split at h
     · simp at h
     · simp only [Res.ok.injEq] at h; omega
 
-theorem tagCount_safe (cfg : Cfg) (u : Nat) (d : Dec) (hb : cfg.bounded = true) : Safe (tagCount cfg u d) := by
-  unfold tagCount; simp only [hb, if_true]
+theorem tagCount_safe (cfg : Cfg) (u : Nat) (d : Dec) (hb : Guarded cfg) : Safe (tagCount cfg u d) := by
+  unfold tagCount; simp only [hb.1, hb.2, if_true, Bool.not_true, Bool.false_and, Bool.false_eq_true, if_false]
   split
   · simp [Safe]
   · split <;> simp [Safe]
@@ -103,7 +107,7 @@ theorem decodeElems_safe (f : Dec → Res Val) (z : Val) (hf : ∀ d, Safe (f d)
     · simp [Safe]
     · exact bind_safe _ _ (hf d) fun _ d => bind_safe _ _ (decodeElems_safe f z hf n d) fun _ _ => by simp [Safe]
 
-theorem taggedLoop_safe (cfg : Cfg) (hb : cfg.bounded = true) (lookup : Int → Option (Nat × (Dec → Res Val)))
+theorem taggedLoop_safe (cfg : Cfg) (hb : Guarded cfg) (lookup : Int → Option (Nat × (Dec → Res Val)))
     (hl : ∀ id idx dec, lookup id = some (idx, dec) → ∀ d, Safe (dec d)) :
     ∀ (n : Nat) (slots : List Val) (d : Dec), Safe (taggedLoop cfg lookup n slots d)
   | 0, slots, d => by simp [taggedLoop, Safe]
@@ -142,7 +146,7 @@ theorem tagLookup_safe (cfg : Cfg) : ∀ (ids : List Int) (ts : List Ty), (∀ t
         exact hts t (by simp)
       · simp at h
 
-theorem ds_string (cfg : Cfg) (hb : cfg.bounded = true) (c n : Bool) : DS cfg (.string c n) := by
+theorem ds_string (cfg : Cfg) (hb : Guarded cfg) (c n : Bool) : DS cfg (.string c n) := by
   intro d
   simp only [decode]
   split
@@ -155,7 +159,7 @@ theorem ds_string (cfg : Cfg) (hb : cfg.bounded = true) (c n : Bool) : DS cfg (.
       · simp [Safe]
       · exact bind_safe _ _ (readLen_safe cfg hb _ d) fun _ _ => by simp [Safe]
 
-theorem ds_bytes (cfg : Cfg) (hb : cfg.bounded = true) (c n : Bool) : DS cfg (.bytes c n) := by
+theorem ds_bytes (cfg : Cfg) (hb : Guarded cfg) (c n : Bool) : DS cfg (.bytes c n) := by
   intro d
   simp only [decode]
   split
@@ -168,7 +172,7 @@ theorem ds_bytes (cfg : Cfg) (hb : cfg.bounded = true) (c n : Bool) : DS cfg (.b
       · simp [Safe]
       · exact bind_safe _ _ (readLen_safe cfg hb _ d) fun _ _ => by simp [Safe]
 
-theorem ds_array (cfg : Cfg) (hb : cfg.bounded = true) (c n : Bool) (t : Ty) (ht : DS cfg t) : DS cfg (.array c n t) := by
+theorem ds_array (cfg : Cfg) (hb : Guarded cfg) (c n : Bool) (t : Ty) (ht : DS cfg t) : DS cfg (.array c n t) := by
   intro d
   simp only [decode]
   split
@@ -183,7 +187,7 @@ theorem ds_array (cfg : Cfg) (hb : cfg.bounded = true) (c n : Bool) (t : Ty) (ht
       · exact bind_safe _ _ (allocElems_safe cfg hb _ d) fun k d =>
           bind_safe _ _ (decodeElems_safe _ _ ht k d) fun _ _ => by simp [Safe]
 
-theorem ds_struct (cfg : Cfg) (hb : cfg.bounded = true) (flex : Bool) (fs : List Ty) (ids : List Int) (ts : List Ty)
+theorem ds_struct (cfg : Cfg) (hb : Guarded cfg) (flex : Bool) (fs : List Ty) (ids : List Int) (ts : List Ty)
     (hfs : ∀ t ∈ fs, DS cfg t) (hts : ∀ t ∈ ts, DS cfg t) : DS cfg (.struct flex fs ids ts) := by
   intro d
   simp only [decode]
@@ -194,7 +198,7 @@ theorem ds_struct (cfg : Cfg) (hb : cfg.bounded = true) (flex : Bool) (fs : List
         fun _ _ => by simp [Safe]
   · simp [Safe]
 
-theorem ds_unit (cfg : Cfg) (hb : cfg.bounded = true) (flex : Bool) : DS cfg (.unit flex) := by
+theorem ds_unit (cfg : Cfg) (hb : Guarded cfg) (flex : Bool) : DS cfg (.unit flex) := by
   intro d
   simp only [decode]
   split
@@ -205,7 +209,7 @@ theorem ds_unit (cfg : Cfg) (hb : cfg.bounded = true) (flex : Bool) : DS cfg (.u
 /-- the record-set reader plugged into the decoder (if any) is itself safe -/
 def RecsSafe (cfg : Cfg) : Prop := ∀ h, cfg.recs = some h → ∀ d, Safe (h d)
 
-theorem ds_records (cfg : Cfg) (hb : cfg.bounded = true) (hr : RecsSafe cfg) : DS cfg .records := by
+theorem ds_records (cfg : Cfg) (hb : Guarded cfg) (hr : RecsSafe cfg) : DS cfg .records := by
   intro d
   simp only [decode]
   split
@@ -225,7 +229,7 @@ theorem ds_int (cfg : Cfg) (t : Ty) (k : Nat)
   intro d; rw [h]; exact bind_safe _ _ (readInt_safe k d) fun _ _ => by simp [Safe]
 
 mutual
-theorem ds_all (cfg : Cfg) (hb : cfg.bounded = true) (hr : RecsSafe cfg) (t : Ty) : DS cfg t :=
+theorem ds_all (cfg : Cfg) (hb : Guarded cfg) (hr : RecsSafe cfg) (t : Ty) : DS cfg t :=
   match t with
   | .bool => ds_prim cfg _ 1 (fun bs => .bool (fromBE bs != 0)) (fun _ => by simp [decode])
   | .int8 => ds_int cfg _ 1 (fun _ => by simp [decode])
@@ -240,7 +244,7 @@ theorem ds_all (cfg : Cfg) (hb : cfg.bounded = true) (hr : RecsSafe cfg) (t : Ty
   | .unit flex => ds_unit cfg hb flex
   | .records => ds_records cfg hb hr
 termination_by structural t
-theorem ds_list (cfg : Cfg) (hb : cfg.bounded = true) (hr : RecsSafe cfg) (ts : List Ty) : ∀ t ∈ ts, DS cfg t :=
+theorem ds_list (cfg : Cfg) (hb : Guarded cfg) (hr : RecsSafe cfg) (ts : List Ty) : ∀ t ∈ ts, DS cfg t :=
   match ts with
   | [] => fun _ h => by simp at h
   | t :: ts => fun t' h => by
@@ -250,7 +254,7 @@ theorem ds_list (cfg : Cfg) (hb : cfg.bounded = true) (hr : RecsSafe cfg) (ts : 
 termination_by structural ts
 end
 
-theorem skipHeaderTags_safe (cfg : Cfg) (hb : cfg.bounded = true) : ∀ (n : Nat) (d : Dec), Safe (skipHeaderTags cfg n d)
+theorem skipHeaderTags_safe (cfg : Cfg) (hb : Guarded cfg) : ∀ (n : Nat) (d : Dec), Safe (skipHeaderTags cfg n d)
   | 0, d => by simp [skipHeaderTags, Safe]
   | n + 1, d => by
     unfold skipHeaderTags
@@ -262,17 +266,17 @@ theorem discardAll_safe (d : Dec) : Safe (discardAll d) := by
 
 /-- **C20, body.**  For every schema type, every decoder state (arbitrary bytes, arbitrary frame size): the
 bounded decoder returns a message or an error — no panic, no allocation beyond the bytes left in the frame. -/
-theorem decode_total_bounded (cfg : Cfg) (hb : cfg.bounded = true) (hr : RecsSafe cfg) (t : Ty) (inp : Bytes) (remain : Nat) :
+theorem decode_total_bounded (cfg : Cfg) (hb : Guarded cfg) (hr : RecsSafe cfg) (t : Ty) (inp : Bytes) (remain : Nat) :
     Safe (decode cfg t ⟨inp, remain⟩) := ds_all cfg hb hr t ⟨inp, remain⟩
 
 /-- **C20, frame.**  `ReadResponse` on an arbitrary byte stream, for every response schema: the size prefix
 (negative, huge, lying), the header tag buffer and the body cannot make it panic or balloon. -/
-theorem readResponse_total_bounded (cfg : Cfg) (hb : cfg.bounded = true) (hr : RecsSafe cfg) (flex : Bool) (t : Ty) (stream : Bytes) :
+theorem readResponse_total_bounded (cfg : Cfg) (hb : Guarded cfg) (hr : RecsSafe cfg) (flex : Bool) (t : Ty) (stream : Bytes) :
     Safe (readResponse cfg flex t stream) := by
   unfold readResponse
   refine bind_safe _ _ (readInt_safe 4 _) fun size d => ?_
   split
-  · simp [hb, Safe]
+  · simp [hb.1, Safe]
   · refine bind_safe _ _ (readInt_safe 4 _) fun corr d => bind_safe _ _ ?_ fun _ d =>
       bind_safe _ _ (ds_all cfg hb hr t d) fun v d => bind_safe _ _ (discardAll_safe d) fun _ _ => by simp [Safe]
     split
@@ -283,25 +287,36 @@ theorem readResponse_total_bounded (cfg : Cfg) (hb : cfg.bounded = true) (hr : R
 /-- the decoder of the CURRENT source tree is the bounded one (fact re-extracted on every run) -/
 theorem source_decoder_is_bounded : Gen.decoderCfg.bounded = true := by decide
 
+/-- … and allocates as the data arrives (G8 ∧ G9, the fixes of C20-D30 / C20-D33) -/
+theorem source_decoder_guarded : Guarded Gen.decoderCfg := ⟨by decide, by decide⟩
+
 /-- the decoder allocates arrays as their elements arrive (fact G8, re-extracted on every run): a count inside the ANNOUNCED
 frame size but beyond the bytes received (C20-D30: size prefix 2^31-1 and count 2^27 in 12 bytes) does not allocate ahead of the
 data.  The model's allocation bound is stated against `remain`; this fact and the `lying-size-and-count` frames of the check
 cover the gap between announced and received. -/
 theorem source_arrays_grow : Gen.arraysGrow = true := by decide
 
+/-- the same for strings and bytes (fact G9, C20-D33: `decoder.read` no longer allocates an announced length beyond 64 KiB ahead of
+the data) -/
+theorem source_reads_grow : Gen.readsGrow = true := by decide
+
+/-- the tagged-field loops stop at the first decoder error (fact G10, C20-D34): the model's short-circuit at the first error
+(`Res.bind`) is what the code does, also for a count inside a lying frame size -/
+theorem source_tag_loops_stop : Gen.tagLoopsStop = true := by decide
+
 /-- C20 for the code as it is now -/
 theorem readResponse_total_source (flex : Bool) (t : Ty) (stream : Bytes) :
     Safe (readResponse Gen.decoderCfg flex t stream) :=
-  readResponse_total_bounded _ source_decoder_is_bounded (fun h hh => by simp [Gen.decoderCfg] at hh) flex t stream
+  readResponse_total_bounded _ source_decoder_guarded (fun h hh => by simp [Gen.decoderCfg] at hh) flex t stream
 
 /-- **C20, request frames** (`ReadRequest`, the other place a frame size is taken from the wire): arbitrary bytes — size
 prefix, client-id length, header tag buffer, body — give a request or an error. -/
-theorem readRequest_total_bounded (cfg : Cfg) (hb : cfg.bounded = true) (hr : RecsSafe cfg) (flex : Bool) (t : Ty) (stream : Bytes) :
+theorem readRequest_total_bounded (cfg : Cfg) (hb : Guarded cfg) (hr : RecsSafe cfg) (flex : Bool) (t : Ty) (stream : Bytes) :
     Safe (readRequest cfg flex t stream) := by
   unfold readRequest
   refine bind_safe _ _ (readInt_safe 4 _) fun size d => ?_
   split
-  · simp [hb, Safe]
+  · simp [hb.1, Safe]
   · refine bind_safe _ _ (readInt_safe 2 _) fun _ d => bind_safe _ _ (readInt_safe 2 _) fun _ d =>
       bind_safe _ _ (readInt_safe 4 _) fun _ d => bind_safe _ _ (ds_all cfg hb hr _ d) fun _ d =>
       bind_safe _ _ ?_ fun _ _ => by simp [Safe]
@@ -315,7 +330,7 @@ theorem readRequest_total_bounded (cfg : Cfg) (hb : cfg.bounded = true) (hr : Re
 
 theorem readRequest_total_source (flex : Bool) (t : Ty) (stream : Bytes) :
     Safe (readRequest Gen.decoderCfg flex t stream) :=
-  readRequest_total_bounded _ source_decoder_is_bounded (fun h hh => by simp [Gen.decoderCfg] at hh) flex t stream
+  readRequest_total_bounded _ source_decoder_guarded (fun h hh => by simp [Gen.decoderCfg] at hh) flex t stream
 
 /-! ### the SASL raw exchange -/
 
@@ -354,11 +369,11 @@ and decompression function: `ReadResponse` with the record-set reader whose guar
 message or an error — the frame size, every reflective length/count, the record-set size, message sizes, key and
 value lengths of v0/v1 messages, `batchLength`, `numRecords`, and every record / key / value / header varint of v2
 batches cannot make it panic or allocate beyond the bytes that hold the data. -/
-theorem readResponse_total_with_records (cfg : Cfg) (hb : cfg.bounded = true) (rc : KV.RecordScan.RCfg)
+theorem readResponse_total_with_records (cfg : Cfg) (hb : Guarded cfg) (rc : KV.RecordScan.RCfg)
     (hg : rc.allGuards = true) (crcI crcC : Bytes → Nat) (dcmp : Int → Bytes → Option Bytes)
     (flex : Bool) (t : Ty) (stream : Bytes) :
     Safe (readResponse (withRecords cfg rc crcI crcC dcmp) flex t stream) :=
-  readResponse_total_bounded (withRecords cfg rc crcI crcC dcmp) (by simpa [withRecords] using hb)
+  readResponse_total_bounded (withRecords cfg rc crcI crcC dcmp) ⟨by simpa [withRecords] using hb.1, by simpa [withRecords] using hb.2⟩
     (fun h hh => by
       have : h = recsHandler rc crcI crcC dcmp := by
         simp only [withRecords] at hh
@@ -373,7 +388,7 @@ theorem source_record_guards : Gen.recordCfg.allGuards = true := by decide
 theorem readResponse_total_source_with_records (crcI crcC : Bytes → Nat) (dcmp : Int → Bytes → Option Bytes)
     (flex : Bool) (t : Ty) (stream : Bytes) :
     Safe (readResponse (withRecords Gen.decoderCfg Gen.recordCfg crcI crcC dcmp) flex t stream) :=
-  readResponse_total_with_records _ source_decoder_is_bounded _ source_record_guards crcI crcC dcmp flex t stream
+  readResponse_total_with_records _ source_decoder_guarded _ source_record_guards crcI crcC dcmp flex t stream
 
 /-! ### "… the outcome is an error or a message, nothing else": no over-read either -/
 
@@ -483,6 +498,14 @@ def isPanic {α : Type} : Res α → Bool | .panic => true | _ => false
 theorem sasl_negative_counterexample : isPanic (saslReadResp ⟨false, true⟩ [0xff, 0xff, 0xff, 0xff]) = true := by decide
 theorem sasl_alloc_counterexample : isBalloon (saslReadResp ⟨true, false⟩ [0x7f, 0xff, 0xff, 0xff, 1, 2]) = true := by decide
 
+/-- **announced is not received** (C20-D30, C20-D33): a decoder that checks every count and length against `remain` but allocates
+the announced amount upfront balloons on 12 resp. 14 bytes whose size prefix lies too -/
+def upfront : Cfg := { bounded := true, growing := false }
+theorem lying_count_counterexample :
+    isBalloon (readResponse upfront false brokersTy [0x7f,0xff,0xff,0xff, 0,0,0,7, 0x08,0,0,0]) = true := by decide
+theorem lying_length_counterexample :
+    isBalloon (readResponse upfront false (.struct false [.bytes false false] [] []) [0x7f,0xff,0xff,0xff, 0,0,0,7, 0x7f,0,0,0, 1,2]) = true := by decide
+
 theorem alloc_counterexample :
     isBalloon (readResponse unbounded false brokersTy [0,0,0,8, 0,0,0,7, 0x7f,0xff,0xff,0xff]) = true := by decide
 
@@ -496,6 +519,9 @@ theorem compact_len_counterexample :
 
 /-- the same three inputs are plain errors for the bounded decoder -/
 def isError {α : Type} : Res α → Bool | .error => true | _ => false
+/-- … which are plain errors for the decoder that allocates as the data arrives -/
+example : isError (readResponse { bounded := true } false brokersTy [0x7f,0xff,0xff,0xff, 0,0,0,7, 0x08,0,0,0]) = true := by decide
+example : isError (readResponse { bounded := true } false (.struct false [.bytes false false] [] []) [0x7f,0xff,0xff,0xff, 0,0,0,7, 0x7f,0,0,0, 1,2]) = true := by decide
 example : isError (readResponse { bounded := true } false brokersTy [0,0,0,8, 0,0,0,7, 0x7f,0xff,0xff,0xff]) = true := by decide
 example : isError (readResponse { bounded := true } false brokersTy [0xff,0xff,0xff,0xff, 0,0,0,7, 0,0,0,0]) = true := by decide
 
